@@ -15,7 +15,9 @@ import random
 #  ("range", a, b) ("lit", s, insensitive) ("eoi",) ("inc", rule)
 #  ("field", fname | None | "@", boxed, typ)
 
-LIT_POOL = ["a", "b", "x", "(", ")", "+", "-", ",", ";", "if", "ab", "let", "é", "ß", "😀", "→", "aé", "=", "=="]
+LIT_POOL = ["a", "b", "x", "(", ")", "+", "-", ",", ";", "if", "ab", "let", "é", "ß", "😀", "→", "aé", "=", "==",
+            # literals that begin with a whitespace character (in a skipping rule the skip runs first and eats it)
+            " x", "\n", "\t="]
 ILIT_POOL = ["a", "Z", "select", "If", "ab", "x1", "_", "{", "0", "@"]
 RANGE_POOL = [("a", "z"), ("0", "9"), ("A", "F"), ("à", "ÿ"), ("a", "é"), ("!", "~"), ("α", "ω"), ("😀", "😏")]
 FIELD_NAMES = ["a", "b", "c", "d", "type", "fn", "x1"]
